@@ -74,6 +74,11 @@ Feed(k) == /\ ~eof /\ k \in 1..(Len(stream) - fed)
 Eof == /\ ~eof /\ fed = Len(stream) /\ eof' = TRUE
        /\ UNCHANGED <<stream, pkts, fed, pos, phase, need, start, typ, len, acc, delivered>>
 
+\* the peer closes right behind its last bytes: data and end of stream reach the reader in the same instant
+FeedEof == /\ ~eof /\ fed < Len(stream)
+           /\ fed' = Len(stream) /\ eof' = TRUE
+           /\ UNCHANGED <<stream, pkts, pos, phase, need, start, typ, len, acc, delivered>>
+
 \* --- reader (one action per await in StreamFace.run / read_tl_num_from_stream) ----
 Avail == fed - pos
 CanRead == phase # "stopped" /\ Avail >= need
@@ -114,7 +119,7 @@ Stop == /\ phase # "stopped" /\ eof /\ Avail < need
 \* nothing more can happen until more bytes (or EOF) arrive
 Quiescent == ~CanRead /\ ~(phase # "stopped" /\ eof /\ Avail < need)
 Reader == ReadT1 \/ ReadTrest \/ ReadL1 \/ ReadLrest \/ ReadV \/ Stop
-Next == (\E k \in 1..MaxBytes : Feed(k)) \/ Eof \/ Reader
+Next == (\E k \in 1..MaxBytes : Feed(k)) \/ Eof \/ FeedEof \/ Reader
 Spec == Init /\ [][Next]_vars /\ WF_vars(Reader) /\ WF_vars(Eof) /\ WF_vars(\E k \in 1..MaxBytes : Feed(k))
 
 -----------------------------------------------------------------------------
